@@ -111,8 +111,8 @@ HEADER = ('From Coq Require Import ZArith List Bool. Import ListNotations.\n'
           'Require Import SC3.lib.PyNum SC3.model.Cond SC3.model.Routine.\n')
 
 
-def item(case, obs, cfg):
-    return '(run_case %s %d %s %s %s, %s)' % (cfg, FUEL, pdefs(case['defs']), pcells(case['cells']), pops(case['ops']), pllz(obs))
+def item(case, obs, cfg, fuel=None):
+    return '(run_case %s %d %s %s %s, %s)' % (cfg, fuel or FUEL, pdefs(case['defs']), pcells(case['cells']), pops(case['ops']), pllz(obs))
 
 
 BODY = 'Eval vm_compute in bad_idx (fun c => llz_eqb (fst c) (snd c)) cases.'
@@ -260,6 +260,36 @@ def gchain(rng):
     return {'defs': defs, 'cells': cells, 'ops': ops, 'mode': 'chain%d' % depth}
 
 
+def gancestor(rng):
+    """routine 0 resumes routine 1 resumes ... ; the innermost one applies an operation to a RUNNING ANCESTOR (not to
+    itself): stop / pause / reset / next / play / resume, caught or not; then routine 0 is driven on from outside"""
+    depth = rng.randint(2, 4)
+    defs = []
+    for i in range(depth - 1):
+        sc = [['yield', gval(rng)]] if rng.random() < 0.3 else []
+        sc += [['call', ['next', i + 1, gval(rng)], rng.random() < 0.7], ['log', ['str', i]], ['yield', gval(rng)]]
+        if rng.random() < 0.5:
+            sc += [['call', ['next', i + 1, ['none']], True], ['yield', gval(rng)]]
+        defs.append({'kind': 'gen', 'hasin': rng.random() < 0.3, 'script': sc})
+    last = []
+    for _ in range(rng.randint(1, 2)):
+        k = rng.choice(['stop', 'stop', 'pause', 'pause', 'reset', 'reset', 'next', 'play', 'resume'])
+        tgt = rng.randrange(depth - 1)
+        last.append(['call', [k, tgt, gval(rng)] if k == 'next' else [k, tgt], rng.random() < 0.75])
+    last += [['log', ['str', 9]], ['yield', gval(rng)]]
+    defs.append({'kind': 'gen' if rng.random() < 0.8 else 'fn', 'hasin': False, 'script': last})
+    ops = []
+    for _ in range(rng.randint(2, 5)):
+        x = rng.random()
+        if x < 0.7:
+            ops.append(['call', ['next', 0, gval(rng)]])
+        elif x < 0.85:
+            ops.append(['call', ['next', rng.randrange(depth), ['none']]])
+        else:
+            ops.append(['call', [rng.choice(['stop', 'reset', 'pause', 'resume']), rng.randrange(depth)]])
+    return {'defs': defs, 'cells': [], 'ops': ops, 'mode': 'ancestor%d' % depth}
+
+
 def gfifo(rng):
     """several played routines wait on ONE Condition / FlowVar (some of them twice, via a next() from outside while they
     hang); then it is signalled / unhung / bound, from outside or from a further routine: order and number of resumptions"""
@@ -308,6 +338,9 @@ def gen_cases(ctx, n):
             continue
         if x < 0.20:
             cases.append(gfifo(ctx.rng))
+            continue
+        if x < 0.28:
+            cases.append(gancestor(ctx.rng))
             continue
         mode = 'plain' if x < 0.45 else 'cond' if x < 0.78 else 'reentrant'
         cases.append(gcase(ctx.rng, mode))
@@ -446,7 +479,10 @@ def correspond(ctx):
             c.count('outcome:' + ('ret' if row[0] == 0 else 'exc%d' % row[1]))
         if any(2 in s['states'] for s in r['struct']) or any(s['queue'] for s in r['struct']):
             c.nontriv(strip(k))
-    items = [item(k, r['obs'], 'patched') for k, r in keep]
+    # every second case runs the model with the SMALLEST fuel the termination theorem allows (number of routines + 1,
+    # nested_next_terminates_fuel_independent): were the bound wrong, the model would answer RecursionError here
+    items = [item(k, r['obs'], 'patched', fuel=(len(k['defs']) + 1) if j % 2 else FUEL) for j, (k, r) in enumerate(keep)]
+    c.count('fuel:minimal(routines+1)', len(keep) // 2)
     bad, errs = fw.check_shards(ctx, 'hist', HEADER, items, BODY, shard=max(40, len(items) // 16 + 1))
     c.evaluations = len(keep) + len(rt_res)
     c.rule = ('generated script programs (1-4 routines, 0-3 conditions/flow variables, bodies of 0-6 actions, histories of 1-18 '
@@ -554,7 +590,7 @@ def _mentions(k, r):
 
 
 SIGNATURES = {'current_tt': SIG_REENTRY, 'running_outside': SIG_REENTRY, 'inside_view': SIG_REENTRY,
-              'self_op': SIG_REENTRY, 'stale_terminal': SIG_STALE}
+              'self_op': SIG_REENTRY, 'ancestor_op': SIG_REENTRY, 'stale_terminal': SIG_STALE}
 # (other monitors - failure_not_done, wait_registers, ... - have no known-finding signature)
 
 
